@@ -56,6 +56,9 @@ def spec_of(cfg):
     s += [(f'economics.{f}', 'bool', None, None) for f in ALL_FLAGS if f not in cfg['flags']]
     s += [('wellbores.redrill', 'real', 0, 50), ('wellbores.nprod', 'real', 1, 200), ('wellbores.ninj', 'real', 0, 200)]
     kind = cfg['kind']
+    if kind == 'district-heating':
+        s += [('economics.dhtotaldistrictnetworkcost', 'real', 0, 1000), ('economics.dhpipinglength', 'real', 0, 10000),
+              ('economics.dhtotaldistrictnetworkcost.Provided', 'bool', None, None), ('economics.dhpipinglength.Provided', 'bool', None, None)]
     if kind == 'chiller':
         s += [('economics.chillercapex', 'real', 0, 100), ('economics.chilleropex', 'real', 0, 100)]
     if kind == 'heat-pump':
@@ -135,6 +138,9 @@ def obligations(cfg, m, v):
             continue
         out.append((f'user-supplied {label} cost is used as given', sor(snot(fl(flag)), eq(getattr(e, outp).value, g(fixed)))))
     tot_valid = fl('totalcapcost.Valid')
+    if kind == 'district-heating' and not tot_valid and 'economics.dhtotaldistrictnetworkcost.Provided' in v:
+        out.append(('user-supplied total district heating network cost is used as given (it takes precedence over a piping length)',
+                    sor(snot(v['economics.dhtotaldistrictnetworkcost.Provided']), eq(e.dhdistrictcost.value, g('dhtotaldistrictnetworkcost')))))
     if not tot_valid:
         out.append(('user-supplied exploration cost is used as given', sor(snot(fl('ccexplfixed.Valid')), eq(e.Cexpl.value, g('ccexplfixed')))))
         base = e.Cexpl.value + e.Cwell.value + e.Cstim.value + e.Cgath.value + e.Cplant.value + e.Cpiping.value + e.dhdistrictcost.value
